@@ -257,6 +257,8 @@ impl<W: Clone + PartialEq + PartialOrd + SampleUniform + SubAssign<W> + Weight>
             let left_index = 2 * index + 1;
             let left_subtotal = self.subtotal(left_index);
             if target_weight < left_subtotal {
+                #[cfg(rand_distr_verif)]
+                crate::verif_hooks::probe(68);
                 index = left_index;
                 continue;
             }
@@ -266,11 +268,15 @@ impl<W: Clone + PartialEq + PartialOrd + SampleUniform + SubAssign<W> + Weight>
             let right_index = 2 * index + 2;
             let right_subtotal = self.subtotal(right_index);
             if target_weight < right_subtotal {
+                #[cfg(rand_distr_verif)]
+                crate::verif_hooks::probe(69);
                 index = right_index;
                 continue;
             }
             target_weight -= right_subtotal;
 
+            #[cfg(rand_distr_verif)]
+            crate::verif_hooks::probe(70);
             // Otherwise we found the index with the target weight.
             break;
         }
